@@ -241,6 +241,8 @@ type Conns struct {
 	conns    map[sb.ConnID]*Conn
 	watchers []chan<- sb.Conn
 	events   chan sb.Conn
+	// requests of the target controller
+	connectReqs, disconnectReqs map[string]int
 }
 
 // NewConns creates an empty manager
@@ -282,11 +284,35 @@ func (m *Conns) GetByTarget(ctx context.Context, targetID topoapi.ID) (sb.Client
 	return nil, errors.NewNotFound("gnmi client for target %s not found", targetID)
 }
 
-// Connect is a no-op: the scenario decides when a device is reachable
-func (m *Conns) Connect(ctx context.Context, target *topoapi.Object) error { return nil }
+// Connect does not open anything - the scenario decides when a device is reachable - but the request is counted:
+// the target controller has to ask for a connection to every target entity it is shown
+func (m *Conns) Connect(ctx context.Context, target *topoapi.Object) error {
+	m.mu.Lock()
+	if m.connectReqs == nil {
+		m.connectReqs = map[string]int{}
+	}
+	m.connectReqs[string(target.ID)]++
+	m.mu.Unlock()
+	return nil
+}
 
-// Disconnect is a no-op
-func (m *Conns) Disconnect(ctx context.Context, targetID topoapi.ID) error { return nil }
+// Disconnect is counted like Connect
+func (m *Conns) Disconnect(ctx context.Context, targetID topoapi.ID) error {
+	m.mu.Lock()
+	if m.disconnectReqs == nil {
+		m.disconnectReqs = map[string]int{}
+	}
+	m.disconnectReqs[string(targetID)]++
+	m.mu.Unlock()
+	return nil
+}
+
+// ConnectRequests tells how often the target controller asked for a connection to / a disconnection from the target
+func (m *Conns) ConnectRequests(target string) (connects, disconnects int) {
+	m.mu.Lock()
+	defer m.mu.Unlock()
+	return m.connectReqs[target], m.disconnectReqs[target]
+}
 
 // Watch replays current connections and then streams additions / removals (the same Conn value for both, as the real manager)
 func (m *Conns) Watch(ctx context.Context, ch chan<- sb.Conn) error {
